@@ -311,7 +311,7 @@ func Discharge(obls []*Obligation, dir string, timeoutS, workers int) []Result {
 			v := RunQuery(script, dir, fmt.Sprintf("%sq%04d", pfx, i), 2, Solvers[:1])
 			if v.Status != "sat" && v.Status != "unsat" && o.Expect == "unsat" && hasQuantHyp {
 				// quantifier-free weakening (ground instances only): an unsat answer is conclusive
-				vq := RunQuery(o.ScriptQF(), dir, fmt.Sprintf("%sq%04dqf", pfx, i), timeoutS/2+1, Solvers)
+				vq := RunQuery(o.ScriptQF(), dir, fmt.Sprintf("%sq%04dqf", pfx, i), timeoutS, Solvers)
 				if vq.Status == "unsat" {
 					vq.Solver += " (ground instances)"
 					os.Remove(vq.Script)
@@ -507,10 +507,13 @@ func (c *Ctx) instances(hyps []*Term, goal *Term) []*Term {
 		qs = append(first, rest...)
 	}
 	if os.Getenv("GOVC_DEBUG_INST") != "" {
-		fmt.Fprintf(os.Stderr, "instances: %d quantifiers, %d candidates, ground spec args: %d functions\n", len(qs), len(cands), len(groundArgs))
+		ne := 0
 		for _, qq := range qs {
-			fmt.Fprintf(os.Stderr, "  q var %s extra=%d\n", qq.v.Name, len(extra(qq.v, qq.body)))
+			if len(extra(qq.v, qq.body)) > 0 {
+				ne++
+			}
 		}
+		fmt.Fprintf(os.Stderr, "instances: %d quantifiers (%d about spec functions), %d candidates, ground spec args: %d functions, goal size %d\n", len(qs), ne, len(cands), len(groundArgs), goal.size)
 	}
 	seenInst := map[int]bool{}
 	// two rounds: the instances of the first round may expose quantifiers nested one level down (forall k forall j)
